@@ -768,7 +768,20 @@ def symbolic_comprehension(I, e, frame, sub, kind, it):
             # the element expression is evaluated for a generic VALID index (j in range)
             okv, val = I.try_nofork(lambda: I.eval(e.elt, sub), guard=z3.And(j >= 0, j < z3.Length(src)))
             if not okv:
-                raise Unsupported(f"comprehension at line {e.lineno}: element expression forks or raises on a generic element")
+                # the element expression can fork or raise: either the source is empty, or it is evaluated
+                # (forks and exceptions explored) for an arbitrary valid index
+                if c.choose(2, "comprehension-empty?") == 0:
+                    c.assume(z3.Length(src) == 0)
+                    if not c.is_sat():
+                        raise Infeasible()
+                    return SList([])
+                # non-empty source: j is an arbitrary VALID index; forks / exceptions of the element
+                # expression are explored for it (the normal continuation keeps `the element at j was fine`,
+                # an over-approximation of `every element was fine`)
+                c.assume(z3.And(j >= 0, j < z3.Length(src)))
+                if not c.is_sat():
+                    raise Infeasible()
+                val = I.eval(e.elt, sub)
             rty = ty_of_value(val)
             if not rty.pure:
                 raise Unsupported("comprehension element type")
